@@ -1285,9 +1285,19 @@ pub fn get_if_type_parameter_used_in_type(
     type_parameters: &HashSet<syn::Ident>,
     ty: &syn::Type,
 ) -> Option<syn::Type> {
-    is_type_parameter_used_in_type(type_parameters, ty).then(|| match ty {
-        syn::Type::Reference(syn::TypeReference { elem: ty, .. }) => (**ty).clone(),
-        ty => ty.clone(),
+    is_type_parameter_used_in_type(type_parameters, ty).then(|| {
+        // A type substituted for a `$t:ty` fragment of a declarative macro is wrapped into
+        // a `None`-delimited group.
+        let mut ty = ty;
+        while let syn::Type::Group(group) = ty {
+            ty = &group.elem;
+        }
+        match ty {
+            syn::Type::Reference(syn::TypeReference { elem: ty, .. }) => {
+                (**ty).clone()
+            }
+            ty => ty.clone(),
+        }
     })
 }
 
@@ -1329,6 +1339,10 @@ pub fn is_type_parameter_used_in_type(
         }
 
         syn::Type::Reference(ty) => {
+            is_type_parameter_used_in_type(type_parameters, &ty.elem)
+        }
+
+        syn::Type::Group(ty) => {
             is_type_parameter_used_in_type(type_parameters, &ty.elem)
         }
 
@@ -2234,6 +2248,13 @@ mod fields_ext {
         ) -> syn::Result<
             Either<punctuated::Iter<'t, syn::Type>, iter::Once<&'t syn::Type>>,
         > {
+            // A type substituted for a `$t:ty` fragment of a declarative macro is wrapped into
+            // a `None`-delimited group.
+            let mut ty = ty;
+            while let syn::Type::Group(group) = ty {
+                ty = &group.elem;
+            }
+
             match ty {
                 syn::Type::Tuple(syn::TypeTuple { elems, .. }) if self.len() > 1 => {
                     match self.len().cmp(&elems.len()) {
